@@ -127,7 +127,7 @@ pub struct Metadata {
     pub mtime: OffsetDateTime,
     /// Date of last access. May not be accurate due to file system optimization
     pub atime: OffsetDateTime,
-    /// Date of creation
+    /// Date of creation. The date of last modification if the file system doesn't record it.
     pub ctime: OffsetDateTime,
 
     /// Length in bytes of file.
@@ -167,7 +167,8 @@ pub async fn stat(path: impl AsRef<str>) -> Option<Metadata> {
         Some(Metadata {
             mtime: systime_to_dt(meta.modified().ok()?),
             atime: systime_to_dt(meta.accessed().ok()?),
-            ctime: systime_to_dt(meta.created().ok()?),
+            // not every file system records the time of creation (procfs, NFS, FUSE, ...)
+            ctime: systime_to_dt(meta.created().or_else(|_| meta.modified()).ok()?),
             len: meta.len(),
         })
     }
